@@ -30,6 +30,22 @@ INVARIANT EmitInv
 CHECK_DEADLOCK FALSE
 """
 
+# quick tier, second run: the complete 14-bit ranges on two channels (stateful
+# defects such as caches keyed too coarsely need neighbouring values)
+QUICK_14BIT_CFG = """SPECIFICATION Spec
+CONSTANTS
+ Chans = {0, 9}
+ Data = {5}
+ Pitches <- FullPitches
+ Positions <- FullPositions
+ SysexAlpha = {0}
+ SysexMaxLen = 0
+ EmitRows = TRUE
+INVARIANT RoundTripInv
+INVARIANT EmitInv
+CHECK_DEADLOCK FALSE
+"""
+
 THOROUGH_CFG = """SPECIFICATION Spec
 CONSTANTS
  Chans <- FullChans
@@ -208,8 +224,15 @@ def run(ctx):
     ctx.add_tlc(res, 'WireMsgs domain + RoundTrip')
     if pr.n != res.distinct:
         raise core.Machinery('replayed %d rows but TLC found %d states' % (pr.n, res.distinct))
+    n_rows = pr.n
+    if not thorough:
+        pr = core.ParallelReplay(ctx, worker, batch_size=5000, procs=4)
+        res = core.run_tlc('WireMsgs', QUICK_14BIT_CFG, on_emit=pr.push, raw_ints=True, timeout=3000)
+        pr.finish()
+        ctx.add_tlc(res, 'WireMsgs complete 14-bit ranges on two channels')
+        n_rows += pr.n
     ctx.exhaustive = thorough
-    ctx.note('domain_rows', pr.n)
+    ctx.note('domain_rows', n_rows)
     # V: beyond the constants
     rng = random.Random(ctx.seed * 7919 + 1)
     recs, cases = record_traces(rng, 20000 if thorough else 3000,
